@@ -311,7 +311,7 @@ Proof.
       destruct (complete_fields y CSched RSched s') as (E1 & _ & _). rewrite E1 in Hu.
       destruct (Nat.eqb (pc (tk s' y)) 0); [eapply remove_first_In; eauto | exact Hu]. }
     apply (Hall t); [|exact Hc]. apply (Hsub (tasks (set_stopped true s)) (set_stopped true s) t). exact Hin2. }
-  destruct (delayed (set_meta 0 (set_tasks [] s2))); exact H3.
+  match goal with |- inv1 (if ?c then _ else _) => destruct c end; exact H3.
 Qed.
 
 Lemma coop_start_inv1 s : inv1 s -> inv1 (coop_start s).
@@ -458,13 +458,11 @@ Lemma fire_noadv j ok s : ext noadv s (fire j ok s).
 Proof. unfold fire. eapply ext_trans; [|apply ext_fold; intros; apply on_fire_noadv]. ext_step. Qed.
 Lemma coop_stop_noadv s : ext noadv s (coop_stop s).
 Proof.
-  unfold coop_stop.
-  match goal with |- context [if ?c then _ else _] => destruct c end.
-  - eapply (ext_cons _ _ _ _ ECancel); [cbn; reflexivity | exact I |].
-    eapply ext_trans; [|apply ext_same; reflexivity].
-    eapply ext_trans; [|apply ext_fold; intros; apply complete_noadv]. ext_step.
-  - eapply ext_trans; [|apply ext_same; reflexivity].
-    eapply ext_trans; [|apply ext_fold; intros; apply complete_noadv]. ext_step.
+  unfold coop_stop. set (s2 := fold_left _ _ _).
+  assert (E2 : ext noadv s s2).
+  { unfold s2. eapply ext_trans; [|apply ext_fold; intros; apply complete_noadv]. ext_step. }
+  match goal with |- context [if ?c then _ else _] => destruct c end;
+    (eapply ext_trans; [exact E2|]; ext_step).
 Qed.
 Lemma coop_start_noadv s : ext noadv s (coop_start s).
 Proof.
@@ -509,7 +507,7 @@ Proof.
   induction n as [|n IH]; intros s H; cbn; [apply ext_refl|].
   destruct (next_task s) as [o s1] eqn:E. apply next_task_spec in E. destruct E as (Hc & Ho & Hin).
   assert (H1 : inv1 s1) by (eapply inv1_core; eauto).
-  destruct o as [t|]; [|apply ext_same; exact Ho].
+  destruct o as [t|]; [|exists [EClear]; split; [cbn; rewrite Ho; reflexivity | repeat constructor]].
   assert (Hin1 : In t (tasks s1)) by (destruct Hc as (Et & _); rewrite Et; exact Hin).
   eapply ext_trans; [apply ext_same; exact Ho|].
   eapply ext_trans; [exact (work_unit_good t s1 H1 Hin1)|].
@@ -940,9 +938,9 @@ Proof.
   { unfold s2. apply fold_complete_reqs; [exact Hnd | |].
     - intros t Hin. apply Hiff in Hin. tauto.
     - eapply reqs_ok_frame; [|exact H]. apply set_wf; reflexivity. }
-  assert (H3 : reqs_ok (set_meta 0 (set_tasks [] s2))).
-  { eapply reqs_ok_frame; [|exact H2]. apply set_wf; reflexivity. }
-  destruct (delayed (set_meta 0 (set_tasks [] s2))); [|exact H3].
+  assert (H3 : reqs_ok (emit EClear (set_meta 0 (set_tasks [] s2)))).
+  { eapply reqs_ok_frame; [|exact H2]. split; [ext_step | repeat split]. }
+  match goal with |- reqs_ok (if ?c then _ else _) => destruct c end; [|exact H3].
   eapply reqs_ok_frame; [|exact H3]. split; [ext_step | repeat split].
 Qed.
 
@@ -986,8 +984,8 @@ Proof.
     destruct co; [|exact Ra]. apply when_done_reqs; [|exact Ra].
     assert (E : ntasks (add_task t s1) = S t).
     { unfold add_task. destruct (stopped s1).
-      - destruct (complete_fields t CSched RSched (set_tasks (tasks s1 ++ [t]) s1)) as (_ & E & _). rewrite E. reflexivity.
-      - destruct (reschedule_core (set_tasks (tasks s1 ++ [t]) s1)) as (_ & E & _). rewrite E. reflexivity. }
+      - match goal with |- ntasks (complete t CSched RSched ?z) = _ => destruct (complete_fields t CSched RSched z) as (_ & E & _) end. rewrite E. reflexivity.
+      - match goal with |- ntasks (reschedule ?z) = _ => destruct (reschedule_core z) as (_ & E & _) end. rewrite E. reflexivity. }
     rewrite E. lia.
   - destruct (has t s) eqn:Eh; [|exact R]. apply when_done_reqs; [apply has_lt; exact Eh | exact R].
   - destruct (has t s); [|exact R]. destruct (comp (tk s t)) as [[c r]|].
@@ -1110,7 +1108,7 @@ Proof.
     match goal with |- context [if ?c then _ else _] => destruct c end; exact Hz. }
   assert (Hall : forall t, runnable s t = true -> comp (tk s2 t) = Some (CSched, RSched)).
   { intros t Ht. apply Hiff in Ht. unfold s2. apply fold_complete_comp_eq; assumption. }
-  destruct (delayed (set_meta 0 (set_tasks [] s2))) eqn:Ed; cbn;
+  destruct (delayed (emit EClear (set_meta 0 (set_tasks [] s2)))) eqn:Ed; cbn;
     (split; [reflexivity|]); (split; [first [reflexivity | exact Ed]|]); (split; [exact Hst | exact Hall]).
 Qed.
 
